@@ -259,7 +259,9 @@ func (w *c16World) removePod(p *corev1.Pod) {
 	w.dirty()
 }
 
-func (w *c16World) newJob(pod *corev1.Pod, tsOffset int) *v1alpha1.PodMigrationJob {
+// newJob creates a PodMigrationJob for the pod. withUID=false: spec.podRef carries only namespace and name, as in a
+// hand-written job (the controller fills in the UID when the job turns Running).
+func (w *c16World) newJob(pod *corev1.Pod, tsOffset int, withUID bool) *v1alpha1.PodMigrationJob {
 	w.jobSeq++
 	name := fmt.Sprintf("job-%d", w.jobSeq)
 	j := &v1alpha1.PodMigrationJob{
@@ -272,6 +274,9 @@ func (w *c16World) newJob(pod *corev1.Pod, tsOffset int) *v1alpha1.PodMigrationJ
 			PodRef: &corev1.ObjectReference{Namespace: pod.Namespace, Name: pod.Name, UID: pod.UID},
 			Mode:   v1alpha1.PodMigrationJobModeReservationFirst,
 		},
+	}
+	if !withUID {
+		j.Spec.PodRef.UID = ""
 	}
 	if err := w.c.Create(context.TODO(), j); err != nil {
 		panic(err)
@@ -336,6 +341,53 @@ func c16Scaled(v *intstr.IntOrString, replicas int) int {
 	return x
 }
 
+// skips: the gate is listed in args.SkipEvictionGates, i.e. its check is switched off.
+func (w *c16World) skips(g config.EvictionGate) bool {
+	for _, x := range w.args.SkipEvictionGates {
+		if x == g {
+			return true
+		}
+	}
+	return false
+}
+
+// The limits that are in force (0 = none): the configured value unless its gate is skipped. Skipping the
+// per-workload migrating gate does not change what "unavailable or being migrated" means for the unavailable limit.
+func (w *c16World) limGlobal() int {
+	if w.skips(config.EvictionGateMaxMigratingGlobally) {
+		return 0
+	}
+	return c16Lim(w.args.MaxMigratingGlobally)
+}
+
+func (w *c16World) limNode() int {
+	if w.skips(config.EvictionGateMaxMigratingPerNode) {
+		return 0
+	}
+	return c16Lim(w.args.MaxMigratingPerNode)
+}
+
+func (w *c16World) limNs() int {
+	if w.skips(config.EvictionGateMaxMigratingPerNamespace) {
+		return 0
+	}
+	return c16Lim(w.args.MaxMigratingPerNamespace)
+}
+
+func (w *c16World) limWlMig(replicas int) int {
+	if w.skips(config.EvictionGateMaxMigratingPerWorkload) {
+		return 0
+	}
+	return c16Scaled(w.args.MaxMigratingPerWorkload, replicas)
+}
+
+func (w *c16World) limWlUnav(replicas int) int {
+	if w.skips(config.EvictionGateMaxUnavailablePerWorkload) {
+		return 0
+	}
+	return c16Scaled(w.args.MaxUnavailablePerWorkload, replicas)
+}
+
 // nonHeadroomReason: why this pod may not be migrated at all (nothing to do with free slots).
 func (w *c16World) nonHeadroomReason(p *corev1.Pod) string {
 	if p.Annotations[extension.AnnotationEvictionCost] == strconv.Itoa(math.MaxInt32) {
@@ -346,11 +398,14 @@ func (w *c16World) nonHeadroomReason(p *corev1.Pod) string {
 	}
 	o := metav1.GetControllerOf(p)
 	if o == nil {
+		if w.skips(config.EvictionGateBarePods) {
+			return ""
+		}
 		return "bare-pod"
 	}
 	wl := w.byUID[o.UID]
 	r := int(wl.Replicas)
-	skip := w.args.SkipCheckExpectedReplicas != nil && *w.args.SkipCheckExpectedReplicas
+	skip := w.skips(config.EvictionGateExpectedReplicas) || (w.args.SkipCheckExpectedReplicas != nil && *w.args.SkipCheckExpectedReplicas)
 	if !skip && (r == 1 || r == c16Scaled(w.args.MaxMigratingPerWorkload, r) || r == c16Scaled(w.args.MaxUnavailablePerWorkload, r)) {
 		return "expected-replicas"
 	}
@@ -514,6 +569,14 @@ func c16NewArbitrator(w *c16World, handle framework.Handle) *arbitratorImpl {
 
 // ---------------------------------------------------------------- generators
 
+var c16AllGates = []config.EvictionGate{
+	config.EvictionGateMaxUnavailablePerWorkload, config.EvictionGateMaxMigratingPerWorkload, config.EvictionGateMaxMigratingPerNode,
+	config.EvictionGateMaxMigratingPerNamespace, config.EvictionGateMaxMigratingGlobally,
+	config.EvictionGateExpectedReplicas, config.EvictionGatePVC, config.EvictionGateBarePods, config.EvictionGateLocalStorage,
+	config.EvictionGateSystemCritical, config.EvictionGatePriorityThreshold, config.EvictionGateLabelSelector,
+	config.EvictionGateNamespaces, config.EvictionGateNodeFit,
+}
+
 func c16GenIntLimit(t *rapid.T, label string) *int32 {
 	v := rapid.SampledFrom([]int{-1, 0, 1, 1, 2, 2, 3}).Draw(t, label)
 	if v < 0 {
@@ -572,9 +635,16 @@ func TestVerifC16ArbitrationRounds(t *testing.T) {
 		if rapid.IntRange(0, 3).Draw(t, "skipExpectedReplicas") == 0 {
 			w.args.SkipCheckExpectedReplicas = ptr.To(true)
 		}
-		limits := fmt.Sprintf("limits{global=%s node=%s ns=%s wlMigrating=%s wlUnavailable=%s skipExpectedReplicas=%v}",
+		if rapid.IntRange(0, 9).Draw(t, "skipGatesMode") >= 4 { // 40% no gate skipped, else any subset of the legal names
+			for _, g := range c16AllGates {
+				if rapid.IntRange(0, 3).Draw(t, "skip"+string(g)) == 0 {
+					w.args.SkipEvictionGates = append(w.args.SkipEvictionGates, g)
+				}
+			}
+		}
+		limits := fmt.Sprintf("limits{global=%s node=%s ns=%s wlMigrating=%s wlUnavailable=%s skipExpectedReplicas=%v skipGates=%v}",
 			c16I32(w.args.MaxMigratingGlobally), c16I32(w.args.MaxMigratingPerNode), c16I32(w.args.MaxMigratingPerNamespace),
-			c16IOS(w.args.MaxMigratingPerWorkload), c16IOS(w.args.MaxUnavailablePerWorkload), w.args.SkipCheckExpectedReplicas != nil)
+			c16IOS(w.args.MaxMigratingPerWorkload), c16IOS(w.args.MaxUnavailablePerWorkload), w.args.SkipCheckExpectedReplicas != nil, w.args.SkipEvictionGates)
 
 		for i, n := 0, rapid.IntRange(1, 3).Draw(t, "nodes"); i < n; i++ {
 			w.nodes = append(w.nodes, fmt.Sprintf("n%d", i))
@@ -582,7 +652,7 @@ func TestVerifC16ArbitrationRounds(t *testing.T) {
 		for i, n := 0, rapid.IntRange(1, 3).Draw(t, "namespaces"); i < n; i++ {
 			w.nss = append(w.nss, fmt.Sprintf("ns%d", i))
 		}
-		sawTerminatingReady, restarts, sawStalePassed := false, 0, false
+		sawTerminatingReady, restarts, sawStalePassed, sawNoUID, sawFilterDupNoUID := false, 0, false, false, false
 		genPod := func(wl *c16Workload, ns string) *corev1.Pod {
 			node := rapid.SampledFrom(w.nodes).Draw(t, "podNode")
 			ready := rapid.IntRange(0, 4).Draw(t, "podReady") > 0
@@ -641,7 +711,9 @@ func TestVerifC16ArbitrationRounds(t *testing.T) {
 				break
 			}
 			p := rapid.SampledFrom(free).Draw(t, "prePod")
-			j := w.newJob(p, 0)
+			withUID := rapid.Bool().Draw(t, "preJobHasPodUID")
+			sawNoUID = sawNoUID || !withUID
+			j := w.newJob(p, 0, withUID)
 			j.Annotations = map[string]string{AnnotationPassedArbitration: "true"}
 			if err := w.c.Update(ctx, j); err != nil {
 				panic(err)
@@ -649,10 +721,10 @@ func TestVerifC16ArbitrationRounds(t *testing.T) {
 			w.dirty()
 			if rapid.Bool().Draw(t, "preRunning") {
 				w.setPhase(j, v1alpha1.PodMigrationJobRunning)
-				w.logf("preexisting running %s -> %s", j.Name, c16Key(p))
+				w.logf("preexisting running %s -> %s (podRef.uid=%v)", j.Name, c16Key(p), withUID)
 			} else {
 				a.filter.markJobPassedArbitration(j.UID) // exactly what updatePassedJob leaves behind
-				w.logf("preexisting passed-pending %s -> %s", j.Name, c16Key(p))
+				w.logf("preexisting passed-pending %s -> %s (podRef.uid=%v)", j.Name, c16Key(p), withUID)
 			}
 		}
 
@@ -677,10 +749,11 @@ func TestVerifC16ArbitrationRounds(t *testing.T) {
 			}
 			return rapid.SampledFrom(cands).Draw(t, label)
 		}
-		addJob := func(t *rapid.T, p *corev1.Pod, how string) {
-			j := w.newJob(p, rapid.IntRange(0, 20).Draw(t, "jobAge"))
+		addJob := func(t *rapid.T, p *corev1.Pod, how string, withUID bool) {
+			sawNoUID = sawNoUID || !withUID
+			j := w.newJob(p, rapid.IntRange(0, 20).Draw(t, "jobAge"), withUID)
 			h.Create(ctx, event.CreateEvent{Object: j}, q)
-			w.logf("%s %s -> %s (created %s)", how, j.Name, c16Key(p), j.CreationTimestamp.Format("15:04:05"))
+			w.logf("%s %s -> %s (created %s, podRef.uid=%v)", how, j.Name, c16Key(p), j.CreationTimestamp.Format("15:04:05"), withUID)
 		}
 
 		round := func(t *rapid.T) {
@@ -735,14 +808,14 @@ func TestVerifC16ArbitrationRounds(t *testing.T) {
 					if p == nil || w.nonHeadroomReason(p) != "" {
 						continue
 					}
-					add("global", c16Lim(w.args.MaxMigratingGlobally), before.global)
-					add("node/"+p.Spec.NodeName, c16Lim(w.args.MaxMigratingPerNode), before.node[p.Spec.NodeName])
-					add("ns/"+p.Namespace, c16Lim(w.args.MaxMigratingPerNamespace), before.ns[p.Namespace])
+					add("global", w.limGlobal(), before.global)
+					add("node/"+p.Spec.NodeName, w.limNode(), before.node[p.Spec.NodeName])
+					add("ns/"+p.Namespace, w.limNs(), before.ns[p.Namespace])
 					if o := metav1.GetControllerOf(p); o != nil {
 						r := int(w.byUID[o.UID].Replicas)
-						add("wlmig/"+string(o.UID), c16Scaled(w.args.MaxMigratingPerWorkload, r), before.wlMig[o.UID])
+						add("wlmig/"+string(o.UID), w.limWlMig(r), before.wlMig[o.UID])
 						unav := before.wlUnav[o.UID]
-						add("wlunav/"+string(o.UID), c16Scaled(w.args.MaxUnavailablePerWorkload, r), unav)
+						add("wlunav/"+string(o.UID), w.limWlUnav(r), unav)
 					}
 				}
 				for _, s := range scopes {
@@ -842,25 +915,25 @@ func TestVerifC16ArbitrationRounds(t *testing.T) {
 				}
 				return false
 			}
-			if chk("global", c16Lim(w.args.MaxMigratingGlobally), before.global, after.global) {
+			if chk("global", w.limGlobal(), before.global, after.global) {
 				return
 			}
 			for _, n := range w.nodes {
-				if chk("node "+n, c16Lim(w.args.MaxMigratingPerNode), before.node[n], after.node[n]) {
+				if chk("node "+n, w.limNode(), before.node[n], after.node[n]) {
 					return
 				}
 			}
 			for _, n := range w.nss {
-				if chk("namespace "+n, c16Lim(w.args.MaxMigratingPerNamespace), before.ns[n], after.ns[n]) {
+				if chk("namespace "+n, w.limNs(), before.ns[n], after.ns[n]) {
 					return
 				}
 			}
 			for _, wl := range w.workloads {
 				r := int(wl.Replicas)
-				if chk("workload-migrating "+wl.Name, c16Scaled(w.args.MaxMigratingPerWorkload, r), before.wlMig[wl.UID], after.wlMig[wl.UID]) {
+				if chk("workload-migrating "+wl.Name, w.limWlMig(r), before.wlMig[wl.UID], after.wlMig[wl.UID]) {
 					return
 				}
-				if chk("workload-unavailable "+wl.Name, c16Scaled(w.args.MaxUnavailablePerWorkload, r), before.wlUnav[wl.UID], after.wlUnav[wl.UID]) {
+				if chk("workload-unavailable "+wl.Name, w.limWlUnav(r), before.wlUnav[wl.UID], after.wlUnav[wl.UID]) {
 					return
 				}
 			}
@@ -881,13 +954,14 @@ func TestVerifC16ArbitrationRounds(t *testing.T) {
 				ok := a.Filter(p)
 				if liveJob != nil {
 					sawFilterDup = true
+					sawFilterDupNoUID = sawFilterDupNoUID || liveJob.Spec.PodRef.UID == ""
 					if ok {
 						viol("arbitration:second-live-job-allowed", "Filter(%s) = true although %s (phase %q) is a live job for that pod", c16Key(p), liveJob.Name, liveJob.Status.Phase)
 						return
 					}
 				}
 				if ok {
-					addJob(t, p, "descheduler job")
+					addJob(t, p, "descheduler job", true) // CreatePodMigrationJob always records the pod UID
 				} else {
 					w.logf("descheduler evict %s refused by Filter", c16Key(p))
 				}
@@ -906,7 +980,7 @@ func TestVerifC16ArbitrationRounds(t *testing.T) {
 				if len(free) == 0 {
 					t.Skip("every pod has a job")
 				}
-				addJob(t, rapid.SampledFrom(free).Draw(t, "pod"), "external job")
+				addJob(t, rapid.SampledFrom(free).Draw(t, "pod"), "external job", rapid.Bool().Draw(t, "jobHasPodUID"))
 			},
 			"externalJob2": func(t *rapid.T) {
 				if dead {
@@ -921,7 +995,7 @@ func TestVerifC16ArbitrationRounds(t *testing.T) {
 				if len(free) == 0 {
 					t.Skip("every pod has a job")
 				}
-				addJob(t, rapid.SampledFrom(free).Draw(t, "pod"), "external job")
+				addJob(t, rapid.SampledFrom(free).Draw(t, "pod"), "external job", rapid.Bool().Draw(t, "jobHasPodUID"))
 			},
 			"jobStartsRunning": func(t *rapid.T) {
 				if dead {
@@ -930,9 +1004,25 @@ func TestVerifC16ArbitrationRounds(t *testing.T) {
 				j := pick(t, "job", func(j *v1alpha1.PodMigrationJob) bool {
 					return c16Phase(j) == v1alpha1.PodMigrationJobPending && c16Passed(j)
 				})
+				filled := false
+				if j.Spec.PodRef.UID == "" && rapid.Bool().Draw(t, "controllerFillsUID") {
+					p := &corev1.Pod{}
+					if err := w.c.Get(ctx, types.NamespacedName{Namespace: j.Spec.PodRef.Namespace, Name: j.Spec.PodRef.Name}, p); err == nil {
+						cur := &v1alpha1.PodMigrationJob{}
+						if err := w.c.Get(ctx, types.NamespacedName{Name: j.Name}, cur); err != nil {
+							panic(err)
+						}
+						cur.Spec.PodRef.UID = p.UID
+						if err := w.c.Update(ctx, cur); err != nil {
+							panic(err)
+						}
+						w.dirty()
+						filled = true
+					}
+				}
 				nj := w.setPhase(j, v1alpha1.PodMigrationJobRunning)
 				h.Update(ctx, event.UpdateEvent{ObjectOld: j, ObjectNew: nj}, q)
-				w.logf("%s running", j.Name)
+				w.logf("%s running (pod uid filled in=%v)", j.Name, filled)
 			},
 			// the running job evicts its pod; the workload controller creates a replacement (not ready yet)
 			"runningJobEvictsPod": func(t *rapid.T) {
@@ -1082,6 +1172,14 @@ func TestVerifC16ArbitrationRounds(t *testing.T) {
 		c.ClassIf(sawTerminatingReady, "terminating-but-ready-replica")
 		c.ClassIf(restarts > 0, "arbitrator-restarted")
 		c.ClassIf(sawStalePassed, "round-with-replayed-passed-job")
+		c.ClassIf(sawNoUID, "job-with-podref-without-uid")
+		c.ClassIf(sawFilterDupNoUID, "filter-asked-for-pod-with-live-job-without-uid")
+		c.ClassIf(len(w.args.SkipEvictionGates) > 0, "skip-gates:some")
+		for _, g := range c16AllGates[:6] {
+			c.ClassIf(w.skips(g), "skip-gate:"+string(g))
+		}
+		c.ClassIf(w.skips(config.EvictionGateBarePods), "skip-gate:BarePods")
+		c.ClassIf(w.skips(config.EvictionGateMaxMigratingPerWorkload) && !w.skips(config.EvictionGateMaxUnavailablePerWorkload), "skip-migrating-gate-but-unavailable-in-force")
 		c.ClassIf(w.args.MaxMigratingGlobally != nil && *w.args.MaxMigratingGlobally > 0, "global-limit-set")
 		c.ClassIf(w.args.MaxMigratingPerWorkload != nil && w.args.MaxMigratingPerWorkload.Type == intstr.String, "workload-limit-percent")
 		if contendedOne {
